@@ -23,7 +23,8 @@ and the target `news M`.  The device is the strict IOS device of `NA.Spec.AclDev
   target modulo `log` (same verdict for every packet), for every script;
   `ios_plan_block_equiv_exact_partial`: pure swaps if no moved line changes `log`.
 * `ios_remark_suppression_counterexample` (F-C02r): with remark lines the current code does not
-  even converge up to block equivalence.  `ios_split_block_move_not_suppressed`: regression for
+  even converge up to block equivalence.  `ios_log_change_lost_counterexample`: a `log`-only change
+  of a line is never sent (why the theorem above is "modulo `log`").  `ios_split_block_move_not_suppressed`: regression for
   the committed fix of F-C02.
 
 With remark lines the statement is false (F-C02r).  Note (from `ios_plan_final_state`): when a
@@ -311,6 +312,23 @@ theorem ios_split_block_move_not_suppressed :
     [(10000, p1), (10001, pM), (10002, denyN), (20000, p2), (30000, p3)],
     by decide, by decide, by decide⟩
 
+namespace W
+/-- `p1` with the `log` attribute: other text (`key`), same identity modulo `log` (`mkey`). -/
+def p1log : Line := { key := 11, mkey := 1, permit := true, mask := 1 }
+def rangesL : List Range := [⟨0,1,0,0⟩, ⟨1,1,0,1⟩, ⟨1,2,1,2⟩]
+def ML : List Cell := [⟨p1, true, false⟩, ⟨p1log, false, true⟩, ⟨p2, true, true⟩]
+end W
+
+open W in
+/-- Finding (log attribute, confirmed with the real `drc`: device `permit tcp A any eq 22`, target
+`permit tcp A any eq 22 log`, a second line unchanged ⇒ empty script): a line whose only change is
+the `log` attribute is a "move" inside its block, the move is suppressed, nothing is sent; the
+device keeps the old attribute.  Exact convergence fails; only `BlockEqG LineEqv` holds. -/
+theorem ios_log_change_lost_counterexample :
+    cellsOf [p1, p2] [p1log, p2] rangesL = some ML ∧ planIOS ML = [] ∧
+    news ML ≠ olds ML ∧ LineEqv p1 p1log := by
+  refine ⟨by decide, by decide, by decide, by decide⟩
+
 /-! ## Non-vacuity of the hypotheses -/
 
 open W in
@@ -362,6 +380,7 @@ def obligations : List Lean.Name := [
   ``ios_plan_converges_no_suppression_partial, ``ios_plan_shape, ``ios_plan_final_state,
   ``ios_plan_block_equiv_of_supprOK, ``ios_plan_block_equiv_partial,
   ``ios_plan_block_equiv_exact_partial,
-  ``ios_remark_suppression_counterexample, ``ios_split_block_move_not_suppressed]
+  ``ios_remark_suppression_counterexample, ``ios_split_block_move_not_suppressed,
+  ``ios_log_change_lost_counterexample]
 
 end NA.Acl.IosAclProps
